@@ -40,17 +40,56 @@ class TokenType(enum.Enum):
     ARROW = "->"
 
 
+# All punctuators, including the digraphs (C99 6.4.6), and comment starts:
+PUNCTUATORS = (
+    "[ ] ( ) { } . -> ++ -- & * + - ~ ! / % << >> < > <= >= == != ^ | && || "
+    "? : ; ... = *= /= %= += -= <<= >>= &= ^= |= , # ## <: :> <% %> %: %:%: "
+    "// /*"
+).split()
+
+
+def must_separate(left: str, right: str) -> bool:
+    """Test if white space is required between two preprocessing tokens.
+
+    Given the spelling of two adjacent tokens, determine if they would
+    be lexed differently when written without white space in between.
+    This test errs on the safe side.
+    """
+    if not left or not right:
+        return False
+
+    char = right[0]
+    if left[-1] in "\"'":
+        # String literal or character constant
+        return False
+    elif left[0].isalpha() or left[0] == "_":
+        # Identifier. Note that L"a" and L'a' are single tokens:
+        return char.isalnum() or char in "_\"'"
+    elif left[0].isdigit() or (left[0] == "." and left[1:2].isdigit()):
+        # Preprocessing number
+        if char.isalnum() or char in "_.":
+            return True
+        return left[-1] in "eEpP" and char in "+-"
+    elif left == "." and char.isdigit():
+        return True
+    else:
+        glued = left + char
+        return any(p.startswith(glued) for p in PUNCTUATORS)
+
+
 class CTokenPrinter:
     """Printer that can turn a stream of token-lines into text"""
 
     def dump(self, tokens, file=None):
         first_line = True
+        previous = None  # The previous token on this line
         for token in tokens:
             # print(token.typ, token.val, token.first)
             if isinstance(token, LineInfo):
                 # print(token, str(token))
                 print(str(token), file=file)
                 first_line = True
+                previous = None
             else:
                 if token.first:
                     # Insert newline!
@@ -58,5 +97,13 @@ class CTokenPrinter:
                         first_line = False
                     else:
                         print(file=file)
+                    previous = None
                 text = str(token)
+                if previous and not token.space:
+                    # Tokens without white space in between, for example
+                    # -A with '#define A -1' must not become --1.
+                    if must_separate(previous.val, token.val):
+                        text = " " + text
                 print(text, end="", file=file)
+                if token.val:
+                    previous = token
